@@ -1,203 +1,274 @@
 //@file src/repr/adjacency_map/mod.rs
-// ---- AdjacencyMap functions that use vertex IDS as POSITIONS (known defect F6) ----
-// Every function appears twice: under its own name with `requires self.wf()` only (the property quantifies over every
-// AdjacencyMap, contiguous or not), and as `<name>_contiguous` with the extra `requires self.contiguous()`.
+// ---- AdjacencyMap::{converse, complement, is_semicomplete, is_tournament} (C11 / C12) and the iterators they are built on ----
+// The contracts hold for EVERY well-formed map, whatever its vertex ids (finding F6: these four functions used vertex ids as
+// positions; repaired in /repo).  Hints are calls of UNCONDITIONAL step lemmas ("state before && what the statements did ==>
+// state after"), so a wrong statement surfaces as a failed invariant / postcondition, not as a failed lemma precondition.
+
+type MpMap = Map<usize, BTreeSet<usize>>;
+
+/// the map collected from `keys().map(|&u| (u, BTreeSet::new()))`: the keys of g, every row empty
+spec fn conv_empty(g: AdjacencyMap, m: MpMap) -> bool {
+    &&& m.dom() == g.arcs@.dom()
+    &&& forall|x: usize| g.arcs@.contains_key(x) ==> (#[trigger] m[x])@ == Set::<usize>::empty()
+}
+
+/// outer loop of converse, at the head with the first i items (key, row) of g visited: the map has the keys of g and row x
+/// holds the visited predecessors of x
+spec fn conv_outer(g: AdjacencyMap, m: MpMap, items: Seq<(&usize, &BTreeSet<usize>)>, i: int) -> bool {
+    &&& g.wf()
+    &&& items.no_duplicates()
+    &&& map_items_of(g.arcs@, items)
+    &&& 0 <= i <= items.len()
+    &&& m.dom() == g.arcs@.dom()
+    &&& forall|x: usize, a: usize| g.arcs@.contains_key(x) ==> #[trigger] m[x]@.contains(a) == (processed(items, i, a) && g.has(a as int, x as int))
+}
+
+/// inner loop of converse, at the head with the first j successors (listed in vs) of the vertex of item i visited
+spec fn conv_inner(g: AdjacencyMap, m: MpMap, items: Seq<(&usize, &BTreeSet<usize>)>, i: int, vs: Seq<&usize>, j: int) -> bool {
+    &&& g.wf()
+    &&& items.no_duplicates()
+    &&& map_items_of(g.arcs@, items)
+    &&& 0 <= i < items.len()
+    &&& vs.unref().to_set() == items[i].1@
+    &&& 0 <= j <= vs.len()
+    &&& m.dom() == g.arcs@.dom()
+    &&& forall|x: usize, a: usize| g.arcs@.contains_key(x) ==> #[trigger] m[x]@.contains(a) ==
+            ((processed(items, i, a) && g.has(a as int, x as int)) || (a == *items[i].0 && seen_id(vs, j, x as int)))
+}
+
+/// `arcs.entry(k).or_default().insert(x)`: key k is present afterwards, its row is the old row (or an empty one) plus x
+spec fn conv_added(m0: MpMap, m1: MpMap, k: usize, x: usize) -> bool {
+    &&& m1 == m0.insert(k, m1[k])
+    &&& m0.contains_key(k) ==> m1[k]@ == m0[k]@.insert(x)
+    &&& !m0.contains_key(k) ==> m1[k]@ == Set::<usize>::empty().insert(x)
+}
+
+/// what converse promises (C11)
+spec fn conv_result(g: AdjacencyMap, q: AdjacencyMap) -> bool {
+    &&& q.verts() == g.verts()
+    &&& forall|a: int, b: int| #![trigger q.has(a, b)] q.has(a, b) == g.has(b, a)
+    &&& q.wf()
+}
+
+/// collecting (key, empty set) for the keys of g
+spec fn conv_init_ok(g: AdjacencyMap, ks: Seq<&usize>, rem: Seq<(usize, BTreeSet<usize>)>, m: BTreeMap<usize, BTreeSet<usize>>) -> bool {
+    ks.unref().to_set() == g.arcs@.dom() && ks.no_duplicates() && rem.len() == ks.len()
+        && (forall|k: int| 0 <= k < rem.len() ==> (#[trigger] rem[k]).0 == *ks[k] && rem[k].1@ == Set::<usize>::empty())
+        && <BTreeMap<usize, BTreeSet<usize>> as vstd::std_specs::iter::FromIteratorSpec<(usize, BTreeSet<usize>)>>::from_iter_ensures(rem, m)
+        ==> conv_empty(g, m@)
+}
+proof fn lemma_conv_init(g: AdjacencyMap, ks: Seq<&usize>, rem: Seq<(usize, BTreeSet<usize>)>, m: BTreeMap<usize, BTreeSet<usize>>)
+    ensures conv_init_ok(g, ks, rem, m),
+{
+    if ks.unref().to_set() == g.arcs@.dom() && ks.no_duplicates() && rem.len() == ks.len()
+        && (forall|k: int| 0 <= k < rem.len() ==> (#[trigger] rem[k]).0 == *ks[k] && rem[k].1@ == Set::<usize>::empty())
+        && <BTreeMap<usize, BTreeSet<usize>> as vstd::std_specs::iter::FromIteratorSpec<(usize, BTreeSet<usize>)>>::from_iter_ensures(rem, m) {
+        axiom_btree_map_from_iter(rem, m);
+        let un = ks.unref();
+        assert forall|i: int, j: int| 0 <= i < j < rem.len() implies rem[i].0 != rem[j].0 by {
+            if rem[i].0 == rem[j].0 { assert(*ks[i] == *ks[j]); assert(ks[i] == ks[j]); }
+        }
+        assert forall|k: usize| m@.dom().contains(k) == g.arcs@.dom().contains(k) by {
+            if m@.contains_key(k) {
+                let i = choose|i: int| 0 <= i < rem.len() && (#[trigger] rem[i]).0 == k;
+                assert(un[i] == k);
+                assert(un.to_set().contains(k));
+            }
+            if g.arcs@.contains_key(k) {
+                assert(un.to_set().contains(k));
+                let i = choose|i: int| 0 <= i < un.len() && un[i] == k;
+                assert(rem[i].0 == k);
+            }
+        }
+        assert(m@.dom() =~= g.arcs@.dom());
+        assert forall|x: usize| g.arcs@.contains_key(x) implies (#[trigger] m@[x])@ == Set::<usize>::empty() by {
+            assert(un.to_set().contains(x));
+            let i = choose|i: int| 0 <= i < un.len() && un[i] == x;
+            assert(rem[i].0 == x);
+            assert(m@[rem[i].0] == rem[i].1);
+        }
+    }
+}
+
+/// before the outer loop: nothing visited
+proof fn lemma_conv_start(g: AdjacencyMap, m: MpMap, items: Seq<(&usize, &BTreeSet<usize>)>)
+    ensures g.wf() && conv_empty(g, m) && items.no_duplicates() && map_items_of(g.arcs@, items) ==> conv_outer(g, m, items, 0),
+{
+    if g.wf() && conv_empty(g, m) && items.no_duplicates() && map_items_of(g.arcs@, items) {
+        assert forall|x: usize, a: usize| g.arcs@.contains_key(x) implies #[trigger] m[x]@.contains(a) == (processed(items, 0, a) && g.has(a as int, x as int)) by {
+            assert(m[x]@ == Set::<usize>::empty());
+        }
+    }
+}
+
+/// entering the inner loop
+proof fn lemma_conv_enter(g: AdjacencyMap, m: MpMap, items: Seq<(&usize, &BTreeSet<usize>)>, i: int, vs: Seq<&usize>)
+    ensures conv_outer(g, m, items, i) && i < items.len() && vs.unref().to_set() == items[i].1@ ==> conv_inner(g, m, items, i, vs, 0),
+{
+    if conv_outer(g, m, items, i) && i < items.len() && vs.unref().to_set() == items[i].1@ {
+        assert forall|x: usize, a: usize| g.arcs@.contains_key(x) implies #[trigger] m[x]@.contains(a) ==
+            ((processed(items, i, a) && g.has(a as int, x as int)) || (a == *items[i].0 && seen_id(vs, 0, x as int))) by {
+            assert(!seen_id(vs, 0, x as int));
+        }
+    }
+}
+
+/// one round of the inner loop: the successor v = vs[j] of u (the vertex of item i) gets the predecessor u
+proof fn lemma_conv_inner_step(g: AdjacencyMap, m0: MpMap, m2: MpMap, items: Seq<(&usize, &BTreeSet<usize>)>, i: int, vs: Seq<&usize>, j: int, u: usize, v: usize)
+    ensures
+        conv_inner(g, m0, items, i, vs, j) && j < vs.len() && *vs[j] == v && *items[i].0 == u && conv_added(m0, m2, v, u)
+            ==> conv_inner(g, m2, items, i, vs, j + 1),
+{
+    if conv_inner(g, m0, items, i, vs, j) && j < vs.len() && *vs[j] == v && *items[i].0 == u && conv_added(m0, m2, v, u) {
+        // v is a successor of u, hence a vertex, hence a key of the map under construction
+        assert(vs.unref()[j] == v);
+        assert(vs.unref().to_set().contains(v));
+        assert(g.arcs@.contains_key(u) && g.arcs@[u] == *items[i].1);
+        assert(g.arcs@[u]@.contains(v));
+        assert(g.arcs@.contains_key(v));
+        assert(m0.dom().contains(v));
+        assert(m0.contains_key(v));
+        assert(m2.dom() =~= m0.dom());
+        assert forall|x: usize, a: usize| g.arcs@.contains_key(x) implies #[trigger] m2[x]@.contains(a) ==
+            ((processed(items, i, a) && g.has(a as int, x as int)) || (a == u && seen_id(vs, j + 1, x as int))) by {
+            assert(m0[x]@.contains(a) == ((processed(items, i, a) && g.has(a as int, x as int)) || (a == u && seen_id(vs, j, x as int))));
+            if seen_id(vs, j + 1, x as int) {
+                let k = choose|k: int| 0 <= k < j + 1 && *(#[trigger] vs[k]) == x as int;
+                if k < j { assert(seen_id(vs, j, x as int)); }
+            }
+            if seen_id(vs, j, x as int) {
+                let k = choose|k: int| 0 <= k < j && *(#[trigger] vs[k]) == x as int;
+                assert(0 <= k < j + 1);
+            }
+            if x == v {
+                assert(*vs[j] == x as int);
+                assert(seen_id(vs, j + 1, x as int));
+                assert(m2[x]@ == m0[x]@.insert(u));
+            } else {
+                assert(m2[x] == m0[x]);
+            }
+        }
+    }
+}
+
+/// end of one round of the outer loop: the inner loop has visited every successor of the vertex of item i
+proof fn lemma_conv_outer_step(g: AdjacencyMap, m: MpMap, items: Seq<(&usize, &BTreeSet<usize>)>, i: int)
+    ensures
+        (exists|vs: Seq<&usize>| #[trigger] conv_inner(g, m, items, i, vs, vs.len() as int)) ==> conv_outer(g, m, items, i + 1),
+{
+    if exists|vs: Seq<&usize>| #[trigger] conv_inner(g, m, items, i, vs, vs.len() as int) {
+        let vs = choose|vs: Seq<&usize>| #[trigger] conv_inner(g, m, items, i, vs, vs.len() as int);
+        let u = *items[i].0;
+        assert(g.arcs@.contains_key(u) && g.arcs@[u] == *items[i].1);
+        assert forall|x: usize, a: usize| g.arcs@.contains_key(x) implies #[trigger] m[x]@.contains(a) == (processed(items, i + 1, a) && g.has(a as int, x as int)) by {
+            lemma_seen_id_all(items[i].1@, vs, x);
+            assert(seen_id(vs, vs.len() as int, x as int) == g.has(u as int, x as int));
+            if processed(items, i + 1, a) {
+                let k = choose|k: int| 0 <= k < i + 1 && *(#[trigger] items[k]).0 == a;
+                if k < i { assert(processed(items, i, a)); }
+            }
+            if processed(items, i, a) {
+                let k = choose|k: int| 0 <= k < i && *(#[trigger] items[k]).0 == a;
+                assert(0 <= k < i + 1);
+            }
+            if a == u { assert(*items[i].0 == a); assert(processed(items, i + 1, a)); }
+        }
+    }
+}
+
+/// the outer loop ran to its end: the map is the converse
+proof fn lemma_conv_result(g: AdjacencyMap, q: AdjacencyMap, items: Seq<(&usize, &BTreeSet<usize>)>)
+    ensures conv_outer(g, q.arcs@, items, items.len() as int) ==> conv_result(g, q),
+{
+    if conv_outer(g, q.arcs@, items, items.len() as int) {
+        broadcast use lemma_map_verts_contains;
+        let m = q.arcs@;
+        assert(q.verts() =~= g.verts());
+        assert forall|a: int, b: int| #![trigger q.has(a, b)] q.has(a, b) == g.has(b, a) by {
+            if 0 <= a <= usize::MAX && 0 <= b <= usize::MAX {
+                lemma_processed_all(g.arcs@, items, b as usize);
+                if m.contains_key(a as usize) {
+                    assert(g.arcs@.contains_key(a as usize));
+                    assert(m[a as usize]@.contains(b as usize) == (processed(items, items.len() as int, b as usize) && g.has(b, a)));
+                }
+                if g.has(b, a) {
+                    assert(g.arcs@[b as usize]@.contains(a as usize));
+                    assert(g.arcs@.contains_key(a as usize));
+                    assert(m.dom().contains(a as usize));
+                }
+            }
+        }
+        assert(q.wf()) by {
+            assert(m.len() == g.arcs@.len());
+            assert forall|u: usize, x: usize| m.contains_key(u) && #[trigger] m[u]@.contains(x) implies m.contains_key(x) && x != u by {
+                assert(g.arcs@.contains_key(u));
+                assert(q.has(u as int, x as int));
+                assert(g.has(x as int, u as int));
+                assert(g.arcs@[x]@.contains(u));
+                assert(m.dom().contains(x));
+            }
+        }
+    }
+}
 
 impl AdjacencyMap {
-    /// V = {0, .., |V| - 1}
-    spec fn contiguous(&self) -> bool {
-        forall|k: usize| #[trigger] self.arcs@.contains_key(k) == (k < self.arcs@.len())
-    }
-
-    /*@fn impl=AdjacencyMap trait=Converse name=converse props=C13 clauseprops=C11 wrap=enumerate
+    /*@fn impl=AdjacencyMap trait=Converse name=converse props=C13 clauseprops=C11
     requires
         self.wf(),
     ensures
         r.verts() == self.verts(),
         forall|a: int, b: int| #![trigger r.has(a, b)] r.has(a, b) == self.has(b, a),
         r.wf(),
-    @loop 1
-    invariant
-        self.wf(),
-        order == self.ord(),
-        vec@.len() == order,
-        it1.seq().no_duplicates(),
-        map_items_of(self.arcs@, it1.seq()),
-        forall|x: int, a: usize| 0 <= x < order ==> #[trigger] vec@[x]@.contains(a) == (processed(it1.seq(), it1.index() as int, a) && self.has(a as int, x)),
-    @loop 2
-    invariant
-        self.wf(),
-        order == self.ord(),
-        vec@.len() == order,
-        it1.seq().no_duplicates(),
-        map_items_of(self.arcs@, it1.seq()),
-        0 <= it1.index() < it1.seq().len(),
-        (u, out_neighbors) == it1.seq()[it1.index() as int],
-        it2.seq().unref().to_set() == out_neighbors@,
-        forall|x: int, a: usize| 0 <= x < order ==> #[trigger] vec@[x]@.contains(a) ==
-            ((processed(it1.seq(), it1.index() as int, a) && self.has(a as int, x)) || (a == *u && seen_id(it2.seq(), it2.index() as int, x))),
-    @loop_start 2
-        proof {
-            // the successor id *v is used as a POSITION in `vec`: in bounds only if ids are positions
-            let j = it2.index() as int;
-            assert(it2.seq().unref()[j] == *v);
-            assert(it2.seq().unref().to_set().contains(*v));
-            assert(self.has(*u as int, *v as int));
-            assert(self.arcs@.contains_key(*v));
-        }
-        let ghost vec0 = vec@;
-    @loop_end 2
-        proof {
-            let j = it2.index() as int;
-            let i = it1.index() as int;
-            assert forall|x: int, a: usize| 0 <= x < order implies #[trigger] vec@[x]@.contains(a) ==
-                ((processed(it1.seq(), i, a) && self.has(a as int, x)) || (a == *u && seen_id(it2.seq(), j + 1, x))) by {
-                assert(vec0[x]@.contains(a) == ((processed(it1.seq(), i, a) && self.has(a as int, x)) || (a == *u && seen_id(it2.seq(), j, x))));
-                if seen_id(it2.seq(), j + 1, x) {
-                    let k = choose|k: int| 0 <= k < j + 1 && *(#[trigger] it2.seq()[k]) == x;
-                    if k < j { assert(seen_id(it2.seq(), j, x)); }
-                }
-                if seen_id(it2.seq(), j, x) {
-                    let k = choose|k: int| 0 <= k < j && *(#[trigger] it2.seq()[k]) == x;
-                    assert(0 <= k < j + 1);
-                }
-                if x == *v { assert(*it2.seq()[j] == x); }
-            }
-        }
-    @loop_end 1
-        proof {
-            let i = it1.index() as int;
-            // every successor of *u has been seen (stated for every item sequence with the inner loop's invariant)
-            assert forall|items: Seq<&usize>, x: int| items.unref().to_set() == out_neighbors@ && 0 <= x < order implies
-                #[trigger] seen_id(items, items.len() as int, x) == self.has(*u as int, x) by {
-                lemma_seen_id_all(out_neighbors@, items, x as usize);
-            }
-            assert forall|a: usize| processed(it1.seq(), i + 1, a) == (processed(it1.seq(), i, a) || a == *u) by {
-                if processed(it1.seq(), i + 1, a) {
-                    let k = choose|k: int| 0 <= k < i + 1 && *(#[trigger] it1.seq()[k]).0 == a;
-                    if k < i { assert(processed(it1.seq(), i, a)); }
-                }
-                if processed(it1.seq(), i, a) {
-                    let k = choose|k: int| 0 <= k < i && *(#[trigger] it1.seq()[k]).0 == a;
-                    assert(0 <= k < i + 1);
-                }
-                if a == *u { assert(*it1.seq()[i].0 == a); }
-            }
-        }
-    @fn_end
-        proof {
-            // all keys have been processed (stated for every item sequence with the outer loop's invariant)
-            assert forall|items: Seq<(&usize, &BTreeSet<usize>)>, a: usize| map_items_of(self.arcs@, items) implies
-                #[trigger] processed(items, items.len() as int, a) == self.arcs@.contains_key(a) by {
-                lemma_processed_all(self.arcs@, items, a);
-            }
-            // the collected map has one entry per position of `vec`
-            assert forall|rem: Seq<(usize, BTreeSet<usize>)>, m: BTreeMap<usize, BTreeSet<usize>>|
-                rem.len() == vec@.len() && (forall|i: int| 0 <= i < rem.len() ==> #[trigger] rem[i] == (i as usize, vec@[i]))
-                && #[trigger] <BTreeMap<usize, BTreeSet<usize>> as vstd::std_specs::iter::FromIteratorSpec<(usize, BTreeSet<usize>)>>::from_iter_ensures(rem, m)
-                implies positional(m@, vec@) by {
-                lemma_collect_positional(rem, m, vec@);
-            }
-        }
-    @*/
-
-    /*@fn impl=AdjacencyMap trait=Converse name=converse rename=converse_contiguous props=C11,C13 wrap=enumerate
-    requires
-        self.wf(),
-        self.contiguous(),
+    @closure 1 |p: &usize| -> (q: (usize, BTreeSet<usize>))
     ensures
-        r.verts() == self.verts(),
-        forall|a: int, b: int| #![trigger r.has(a, b)] r.has(a, b) == self.has(b, a),
-        r.wf(),
+        q.0 == *p,
+        q.1@ == Set::<usize>::empty(),
+    @fn_start
+        broadcast use vstd::laws_cmp::group_laws_cmp;
+        broadcast use vstd::std_specs::iter::group_iter_axioms;
+        proof {
+            // the collected map has the keys of self, each with an empty row
+            assert forall|ks: Seq<&usize>, rem: Seq<(usize, BTreeSet<usize>)>, m: BTreeMap<usize, BTreeSet<usize>>|
+                #![trigger ks.no_duplicates(), <BTreeMap<usize, BTreeSet<usize>> as vstd::std_specs::iter::FromIteratorSpec<(usize, BTreeSet<usize>)>>::from_iter_ensures(rem, m)]
+                conv_init_ok(*self, ks, rem, m) by {
+                lemma_conv_init(*self, ks, rem, m);
+            }
+        }
+    @before `for (u, out_neighbors) in &self.arcs`
+        proof {
+            // the loop's iterator does not exist yet: for every item listing
+            assert forall|items: Seq<(&usize, &BTreeSet<usize>)>| #![trigger map_items_of(self.arcs@, items)]
+                self.wf() && conv_empty(*self, arcs@) && items.no_duplicates() && map_items_of(self.arcs@, items) ==> conv_outer(*self, arcs@, items, 0)
+            by { lemma_conv_start(*self, arcs@, items); }
+        }
     @loop 1
     invariant
-        self.wf(),
-        self.contiguous(),
-        order == self.ord(),
-        vec@.len() == order,
-        it1.seq().no_duplicates(),
-        map_items_of(self.arcs@, it1.seq()),
-        forall|x: int, a: usize| 0 <= x < order ==> #[trigger] vec@[x]@.contains(a) == (processed(it1.seq(), it1.index() as int, a) && self.has(a as int, x)),
+        conv_outer(*self, arcs@, it1.seq(), it1.index() as int),
+    @before `for v in out_neighbors`
+        proof {
+            // the inner loop's iterator does not exist yet: for every successor listing
+            assert forall|vs: Seq<&usize>| #![trigger vs.unref()]
+                conv_outer(*self, arcs@, it1.seq(), it1.index() as int) && it1.index() < it1.seq().len() && vs.unref().to_set() == it1.seq()[it1.index() as int].1@
+                    ==> conv_inner(*self, arcs@, it1.seq(), it1.index() as int, vs, 0)
+            by { lemma_conv_enter(*self, arcs@, it1.seq(), it1.index() as int, vs); }
+        }
     @loop 2
     invariant
-        self.wf(),
-        self.contiguous(),
-        order == self.ord(),
-        vec@.len() == order,
-        it1.seq().no_duplicates(),
-        map_items_of(self.arcs@, it1.seq()),
         0 <= it1.index() < it1.seq().len(),
         (u, out_neighbors) == it1.seq()[it1.index() as int],
-        it2.seq().unref().to_set() == out_neighbors@,
-        forall|x: int, a: usize| 0 <= x < order ==> #[trigger] vec@[x]@.contains(a) ==
-            ((processed(it1.seq(), it1.index() as int, a) && self.has(a as int, x)) || (a == *u && seen_id(it2.seq(), it2.index() as int, x))),
+        conv_inner(*self, arcs@, it1.seq(), it1.index() as int, it2.seq(), it2.index() as int),
     @loop_start 2
-        proof {
-            // the successor id *v is used as a POSITION in `vec`: in bounds only if ids are positions
-            let j = it2.index() as int;
-            assert(it2.seq().unref()[j] == *v);
-            assert(it2.seq().unref().to_set().contains(*v));
-            assert(self.has(*u as int, *v as int));
-            assert(self.arcs@.contains_key(*v));
-        }
-        let ghost vec0 = vec@;
+        let ghost m0 = arcs@;
     @loop_end 2
-        proof {
-            let j = it2.index() as int;
-            let i = it1.index() as int;
-            assert forall|x: int, a: usize| 0 <= x < order implies #[trigger] vec@[x]@.contains(a) ==
-                ((processed(it1.seq(), i, a) && self.has(a as int, x)) || (a == *u && seen_id(it2.seq(), j + 1, x))) by {
-                assert(vec0[x]@.contains(a) == ((processed(it1.seq(), i, a) && self.has(a as int, x)) || (a == *u && seen_id(it2.seq(), j, x))));
-                if seen_id(it2.seq(), j + 1, x) {
-                    let k = choose|k: int| 0 <= k < j + 1 && *(#[trigger] it2.seq()[k]) == x;
-                    if k < j { assert(seen_id(it2.seq(), j, x)); }
-                }
-                if seen_id(it2.seq(), j, x) {
-                    let k = choose|k: int| 0 <= k < j && *(#[trigger] it2.seq()[k]) == x;
-                    assert(0 <= k < j + 1);
-                }
-                if x == *v { assert(*it2.seq()[j] == x); }
-            }
-        }
+        proof { lemma_conv_inner_step(*self, m0, arcs@, it1.seq(), it1.index() as int, it2.seq(), it2.index() as int, *u, *v); }
     @loop_end 1
-        proof {
-            let i = it1.index() as int;
-            // every successor of *u has been seen (stated for every item sequence with the inner loop's invariant)
-            assert forall|items: Seq<&usize>, x: int| items.unref().to_set() == out_neighbors@ && 0 <= x < order implies
-                #[trigger] seen_id(items, items.len() as int, x) == self.has(*u as int, x) by {
-                lemma_seen_id_all(out_neighbors@, items, x as usize);
-            }
-            assert forall|a: usize| processed(it1.seq(), i + 1, a) == (processed(it1.seq(), i, a) || a == *u) by {
-                if processed(it1.seq(), i + 1, a) {
-                    let k = choose|k: int| 0 <= k < i + 1 && *(#[trigger] it1.seq()[k]).0 == a;
-                    if k < i { assert(processed(it1.seq(), i, a)); }
-                }
-                if processed(it1.seq(), i, a) {
-                    let k = choose|k: int| 0 <= k < i && *(#[trigger] it1.seq()[k]).0 == a;
-                    assert(0 <= k < i + 1);
-                }
-                if a == *u { assert(*it1.seq()[i].0 == a); }
-            }
-        }
+        proof { lemma_conv_outer_step(*self, arcs@, it1.seq(), it1.index() as int); }
     @fn_end
         proof {
-            // all keys have been processed (stated for every item sequence with the outer loop's invariant)
-            assert forall|items: Seq<(&usize, &BTreeSet<usize>)>, a: usize| map_items_of(self.arcs@, items) implies
-                #[trigger] processed(items, items.len() as int, a) == self.arcs@.contains_key(a) by {
-                lemma_processed_all(self.arcs@, items, a);
-            }
-            // the collected map has one entry per position of `vec`
-            assert forall|rem: Seq<(usize, BTreeSet<usize>)>, m: BTreeMap<usize, BTreeSet<usize>>|
-                rem.len() == vec@.len() && (forall|i: int| 0 <= i < rem.len() ==> #[trigger] rem[i] == (i as usize, vec@[i]))
-                && #[trigger] <BTreeMap<usize, BTreeSet<usize>> as vstd::std_specs::iter::FromIteratorSpec<(usize, BTreeSet<usize>)>>::from_iter_ensures(rem, m)
-                implies positional(m@, vec@) by {
-                lemma_collect_positional(rem, m, vec@);
-            }
-            // a positional map whose row x holds the predecessors of x is the converse (ids are positions here)
-            assert forall|q: AdjacencyMap| #[trigger] positional(q.arcs@, vec@) implies
-                q.verts() == self.verts() && q.wf() && (forall|a: int, b: int| #![trigger q.has(a, b)] q.has(a, b) == self.has(b, a)) by {
-                lemma_converse_result(*self, q, vec@);
-            }
+            // the loop's ghost iterator is out of scope here: state the conclusion for every item listing
+            assert forall|items: Seq<(&usize, &BTreeSet<usize>)>| #![trigger conv_outer(*self, arcs@, items, items.len() as int)]
+                conv_outer(*self, arcs@, items, items.len() as int) ==> conv_result(*self, AdjacencyMap { arcs })
+            by { lemma_conv_result(*self, AdjacencyMap { arcs }, items); }
         }
     @*/
 }
@@ -389,10 +460,10 @@ fn empty_set() -> (r: &'static BTreeSet<usize>)
 }
 
 impl AdjacencyMap {
-    /*@fn impl=AdjacencyMap trait=IsSemicomplete name=is_semicomplete props=C13 clauseprops=C12
+    /*@fn impl=AdjacencyMap trait=IsSemicomplete name=is_semicomplete props=C13 clauseprops=C12 wrap=enumerate
     requires
         self.wf(),
-        // the product order * (order - 1) needs order <= 2^32 (a digraph that large cannot be built); not part of finding F6
+        // the product order * (order - 1) needs order <= 2^32 (a digraph that large cannot be built)
         self.ord() <= 0x1_0000_0000,
     ensures
         r == map_semicomplete(*self),
@@ -436,7 +507,7 @@ impl AdjacencyMap {
         order == self.ord(),
         is_key_seq(self.arcs@.dom(), self.key_seq()),
         self.key_seq().len() == order,
-        it2.seq() == self.key_seq(),
+        enumerated_keys(*self, it2.seq()),
         rows_at(*self, out_neighbors@),
         forall|i: int, b: usize| 0 <= i < it2.index() && self.arcs@.contains_key(b) && b != self.key_seq()[i]
             ==> #[trigger] map_joined(*self, self.key_seq()[i] as int, b as int),
@@ -448,119 +519,21 @@ impl AdjacencyMap {
         order == self.ord(),
         is_key_seq(self.arcs@.dom(), self.key_seq()),
         self.key_seq().len() == order,
-        it3.seq() == self.key_seq(),
+        enumerated_keys(*self, it3.seq()),
         rows_at(*self, out_neighbors@),
         0 <= it2.index() < order,
+        i == it2.index(),
         u == self.key_seq()[it2.index() as int],
         forall|j: int| 0 <= j < it3.index() && self.key_seq()[j] != u ==> #[trigger] map_joined(*self, u as int, self.key_seq()[j] as int),
     @loop_start 3
         proof {
-            // u and v are vertex IDS; they are used as POSITIONS in `out_neighbors`: in bounds only if ids are positions
+            // (i, u) and (j, v): position and id of a vertex; `out_neighbors` is indexed by POSITION and holds the row of that vertex
             assert(self.key_seq().to_set().contains(self.key_seq()[it2.index() as int]));
             assert(self.key_seq().to_set().contains(self.key_seq()[it3.index() as int]));
-            assert(self.arcs@.contains_key(u) && self.arcs@.contains_key(v));
-        }
-    @loop_end 2
-        proof {
-            // the inner loop has compared u with every vertex
-            assert forall|b: usize| self.arcs@.contains_key(b) && b != u implies map_joined(*self, u as int, b as int) by {
-                assert(self.key_seq().to_set().contains(b));
-                let j = choose|j: int| 0 <= j < self.key_seq().len() && self.key_seq()[j] == b;
-                assert(map_joined(*self, u as int, self.key_seq()[j] as int));
-            }
-        }
-    @fn_end
-        proof {
-            assert forall|a: int, b: int| self.verts().contains(a) && self.verts().contains(b) && a != b implies #[trigger] map_joined(*self, a, b) by {
-                assert(self.key_seq().to_set().contains(a as usize));
-                let i = choose|i: int| 0 <= i < self.key_seq().len() && self.key_seq()[i] == a as usize;
-                assert(map_joined(*self, self.key_seq()[i] as int, (b as usize) as int));
-            }
-        }
-    @*/
-
-    /*@fn impl=AdjacencyMap trait=IsSemicomplete name=is_semicomplete rename=is_semicomplete_contiguous props=C12,C13
-    requires
-        self.wf(),
-        self.contiguous(),
-        self.ord() <= 0x1_0000_0000,
-    ensures
-        r == map_semicomplete(*self),
-    @closure 1 || -> (x: &BTreeSet<usize>)
-    requires
-        false,
-    @after `let order = self.order();`
-        broadcast use lemma_map_verts_contains;
-        proof {
-            lemma_contiguous_key_seq(*self);
-            assert(order * (order - 1) <= usize::MAX) by (nonlinear_arith) requires 1 <= order <= 0x1_0000_0000;
-        }
-    @before #1 `return false;`
-        proof {
-            // fewer arcs than unordered pairs: some pair is not joined
-            lemma_rows_sum_bound(*self, order as int);
-            lemma_map_pair_count(*self);
-            assert(order * (order - 1) == order * order - order) by (nonlinear_arith) requires order >= 1;
-            assert((order - 1) * order == order * (order - 1)) by (nonlinear_arith) requires order >= 1;  // robust against commuted operands
-            assert(self.arc_count() <= order * (order - 1));
-        }
-    @loop 1
-    invariant
-        it1.iter.obeys_prophetic_iter_laws(),
-        it1.iter.decrease() is Some,
-        self.wf(),
-        order == self.ord(),
-        is_key_seq(self.arcs@.dom(), self.key_seq()),
-        self.key_seq().len() == order,
-        it1.seq() == self.key_seq(),
-        out_neighbors@.len() == it1.index(),
-        forall|k: int| 0 <= k < it1.index() ==> *(#[trigger] out_neighbors@[k]) == self.arcs@[self.key_seq()[k]],
-    @loop_start 1
-        proof {
-            // u is a vertex: it has a row, the fallback `empty_set()` is not reached
-            assert(self.key_seq().to_set().contains(self.key_seq()[it1.index() as int]));
-            assert(self.arcs@.contains_key(u));
-        }
-    @loop 2
-    invariant
-        it2.iter.obeys_prophetic_iter_laws(),
-        it2.iter.decrease() is Some,
-        self.wf(),
-        self.contiguous(),
-        forall|k: int| 0 <= k < order ==> #[trigger] self.key_seq()[k] == k,
-        order == self.ord(),
-        is_key_seq(self.arcs@.dom(), self.key_seq()),
-        self.key_seq().len() == order,
-        it2.seq() == self.key_seq(),
-        rows_at(*self, out_neighbors@),
-        forall|i: int, b: usize| 0 <= i < it2.index() && self.arcs@.contains_key(b) && b != self.key_seq()[i]
-            ==> #[trigger] map_joined(*self, self.key_seq()[i] as int, b as int),
-    @loop 3
-    invariant
-        it3.iter.obeys_prophetic_iter_laws(),
-        it3.iter.decrease() is Some,
-        self.wf(),
-        self.contiguous(),
-        forall|k: int| 0 <= k < order ==> #[trigger] self.key_seq()[k] == k,
-        order == self.ord(),
-        is_key_seq(self.arcs@.dom(), self.key_seq()),
-        self.key_seq().len() == order,
-        it3.seq() == self.key_seq(),
-        rows_at(*self, out_neighbors@),
-        0 <= it2.index() < order,
-        u == self.key_seq()[it2.index() as int],
-        forall|j: int| 0 <= j < it3.index() && self.key_seq()[j] != u ==> #[trigger] map_joined(*self, u as int, self.key_seq()[j] as int),
-    @loop_start 3
-        proof {
-            // u and v are vertex IDS; they are used as POSITIONS in `out_neighbors`: in bounds only if ids are positions
-            assert(self.key_seq().to_set().contains(self.key_seq()[it2.index() as int]));
-            assert(self.key_seq().to_set().contains(self.key_seq()[it3.index() as int]));
-            assert(self.arcs@.contains_key(u) && self.arcs@.contains_key(v));
-            assert(u < order && v < order);
-            assert(self.key_seq()[u as int] == u && self.key_seq()[v as int] == v);
         }
     @before #2 `return false;`
-        proof { assert(!map_joined(*self, u as int, v as int)); }
+        // the pair (u, v) is the witness (naming the term is enough: nothing is asserted here)
+        let ghost witness = map_joined(*self, u as int, v as int);
     @loop_end 2
         proof {
             // the inner loop has compared u with every vertex
@@ -582,10 +555,10 @@ impl AdjacencyMap {
 }
 
 impl AdjacencyMap {
-    /*@fn impl=AdjacencyMap trait=IsTournament name=is_tournament props=C13 clauseprops=C12
+    /*@fn impl=AdjacencyMap trait=IsTournament name=is_tournament props=C13 clauseprops=C12 wrap=enumerate
     requires
         self.wf(),
-        // the product order * (order - 1) needs order <= 2^32 (a digraph that large cannot be built); not part of finding F6
+        // the product order * (order - 1) needs order <= 2^32 (a digraph that large cannot be built)
         self.ord() <= 0x1_0000_0000,
     ensures
         r == map_tournament(*self),
@@ -629,7 +602,7 @@ impl AdjacencyMap {
         order == self.ord(),
         is_key_seq(self.arcs@.dom(), self.key_seq()),
         self.key_seq().len() == order,
-        it2.seq() == self.key_seq(),
+        enumerated_keys(*self, it2.seq()),
         rows_at(*self, out_neighbors@),
         forall|i: int, b: usize| 0 <= i < it2.index() && self.arcs@.contains_key(b) && b != self.key_seq()[i]
             ==> #[trigger] map_joined_once(*self, self.key_seq()[i] as int, b as int),
@@ -641,119 +614,21 @@ impl AdjacencyMap {
         order == self.ord(),
         is_key_seq(self.arcs@.dom(), self.key_seq()),
         self.key_seq().len() == order,
-        it3.seq() == self.key_seq(),
+        enumerated_keys(*self, it3.seq()),
         rows_at(*self, out_neighbors@),
         0 <= it2.index() < order,
+        i == it2.index(),
         u == self.key_seq()[it2.index() as int],
         forall|j: int| 0 <= j < it3.index() && self.key_seq()[j] != u ==> #[trigger] map_joined_once(*self, u as int, self.key_seq()[j] as int),
     @loop_start 3
         proof {
-            // u and v are vertex IDS; they are used as POSITIONS in `out_neighbors`: in bounds only if ids are positions
+            // (i, u) and (j, v): position and id of a vertex; `out_neighbors` is indexed by POSITION and holds the row of that vertex
             assert(self.key_seq().to_set().contains(self.key_seq()[it2.index() as int]));
             assert(self.key_seq().to_set().contains(self.key_seq()[it3.index() as int]));
-            assert(self.arcs@.contains_key(u) && self.arcs@.contains_key(v));
-        }
-    @loop_end 2
-        proof {
-            // the inner loop has compared u with every vertex
-            assert forall|b: usize| self.arcs@.contains_key(b) && b != u implies map_joined_once(*self, u as int, b as int) by {
-                assert(self.key_seq().to_set().contains(b));
-                let j = choose|j: int| 0 <= j < self.key_seq().len() && self.key_seq()[j] == b;
-                assert(map_joined_once(*self, u as int, self.key_seq()[j] as int));
-            }
-        }
-    @fn_end
-        proof {
-            assert forall|a: int, b: int| self.verts().contains(a) && self.verts().contains(b) && a != b implies #[trigger] map_joined_once(*self, a, b) by {
-                assert(self.key_seq().to_set().contains(a as usize));
-                let i = choose|i: int| 0 <= i < self.key_seq().len() && self.key_seq()[i] == a as usize;
-                assert(map_joined_once(*self, self.key_seq()[i] as int, (b as usize) as int));
-            }
-        }
-    @*/
-
-    /*@fn impl=AdjacencyMap trait=IsTournament name=is_tournament rename=is_tournament_contiguous props=C12,C13
-    requires
-        self.wf(),
-        self.contiguous(),
-        self.ord() <= 0x1_0000_0000,
-    ensures
-        r == map_tournament(*self),
-    @closure 1 || -> (x: &BTreeSet<usize>)
-    requires
-        false,
-    @after `let order = self.order();`
-        broadcast use lemma_map_verts_contains;
-        proof {
-            lemma_contiguous_key_seq(*self);
-            assert(order * (order - 1) <= usize::MAX) by (nonlinear_arith) requires 1 <= order <= 0x1_0000_0000;
-        }
-    @before #1 `return false;`
-        proof {
-            // the number of arcs differs from the number of unordered pairs: some pair is not joined exactly once
-            lemma_rows_sum_bound(*self, order as int);
-            lemma_map_pair_count(*self);
-            assert(order * (order - 1) == order * order - order) by (nonlinear_arith) requires order >= 1;
-            assert((order - 1) * order == order * (order - 1)) by (nonlinear_arith) requires order >= 1;  // robust against commuted operands
-            assert(self.arc_count() <= order * (order - 1));
-        }
-    @loop 1
-    invariant
-        it1.iter.obeys_prophetic_iter_laws(),
-        it1.iter.decrease() is Some,
-        self.wf(),
-        order == self.ord(),
-        is_key_seq(self.arcs@.dom(), self.key_seq()),
-        self.key_seq().len() == order,
-        it1.seq() == self.key_seq(),
-        out_neighbors@.len() == it1.index(),
-        forall|k: int| 0 <= k < it1.index() ==> *(#[trigger] out_neighbors@[k]) == self.arcs@[self.key_seq()[k]],
-    @loop_start 1
-        proof {
-            // u is a vertex: it has a row, the fallback `empty_set()` is not reached
-            assert(self.key_seq().to_set().contains(self.key_seq()[it1.index() as int]));
-            assert(self.arcs@.contains_key(u));
-        }
-    @loop 2
-    invariant
-        it2.iter.obeys_prophetic_iter_laws(),
-        it2.iter.decrease() is Some,
-        self.wf(),
-        self.contiguous(),
-        forall|k: int| 0 <= k < order ==> #[trigger] self.key_seq()[k] == k,
-        order == self.ord(),
-        is_key_seq(self.arcs@.dom(), self.key_seq()),
-        self.key_seq().len() == order,
-        it2.seq() == self.key_seq(),
-        rows_at(*self, out_neighbors@),
-        forall|i: int, b: usize| 0 <= i < it2.index() && self.arcs@.contains_key(b) && b != self.key_seq()[i]
-            ==> #[trigger] map_joined_once(*self, self.key_seq()[i] as int, b as int),
-    @loop 3
-    invariant
-        it3.iter.obeys_prophetic_iter_laws(),
-        it3.iter.decrease() is Some,
-        self.wf(),
-        self.contiguous(),
-        forall|k: int| 0 <= k < order ==> #[trigger] self.key_seq()[k] == k,
-        order == self.ord(),
-        is_key_seq(self.arcs@.dom(), self.key_seq()),
-        self.key_seq().len() == order,
-        it3.seq() == self.key_seq(),
-        rows_at(*self, out_neighbors@),
-        0 <= it2.index() < order,
-        u == self.key_seq()[it2.index() as int],
-        forall|j: int| 0 <= j < it3.index() && self.key_seq()[j] != u ==> #[trigger] map_joined_once(*self, u as int, self.key_seq()[j] as int),
-    @loop_start 3
-        proof {
-            // u and v are vertex IDS; they are used as POSITIONS in `out_neighbors`: in bounds only if ids are positions
-            assert(self.key_seq().to_set().contains(self.key_seq()[it2.index() as int]));
-            assert(self.key_seq().to_set().contains(self.key_seq()[it3.index() as int]));
-            assert(self.arcs@.contains_key(u) && self.arcs@.contains_key(v));
-            assert(u < order && v < order);
-            assert(self.key_seq()[u as int] == u && self.key_seq()[v as int] == v);
         }
     @before #2 `return false;`
-        proof { assert(!map_joined_once(*self, u as int, v as int)); }
+        // the pair (u, v) is the witness (naming the term is enough: nothing is asserted here)
+        let ghost witness = map_joined_once(*self, u as int, v as int);
     @loop_end 2
         proof {
             // the inner loop has compared u with every vertex
@@ -805,13 +680,7 @@ impl AdjacencyMap {
         broadcast use axiom_btree_set_from_iter;
     @before `Self {`
         proof {
-            // `vertices` is the set of POSITIONS 0..order, not the vertex set
-            assert forall|rem: Seq<usize>| rem.len() == order && (forall|i: int| 0 <= i < order ==> #[trigger] rem[i] == i)
-                && #[trigger] rem.to_set() == vertices@ implies (forall|x: usize| vertices@.contains(x) == (x < order)) by {
-                assert forall|x: usize| vertices@.contains(x) == (x < order) by { lemma_range_set(order, rem, x); }
-            }
-            assert(forall|x: usize| vertices@.contains(x) == (x < order));
-            // the collected map has the keys of self and, at key k, the positions that are neither k nor successors of k
+            // the collected map has the keys of self and, at key k, the elements of `vertices` that are neither k nor successors of k
             assert forall|src: Seq<(&usize, &BTreeSet<usize>)>, rem: Seq<(usize, BTreeSet<usize>)>, m: BTreeMap<usize, BTreeSet<usize>>|
                 map_items_of(self.arcs@, src) && rem.len() == src.len()
                 && (forall|k: int| 0 <= k < rem.len() ==> (#[trigger] rem[k]).0 == *src[k].0 && rem[k].1@ == vertices@.difference(src[k].1@).remove(*src[k].0))
@@ -820,46 +689,8 @@ impl AdjacencyMap {
                 implies complement_rows(*self, m@, vertices@) by {
                 lemma_collect_complement(*self, src, rem, m, vertices@);
             }
-        }
-    @*/
-
-    /*@fn impl=AdjacencyMap trait=Complement name=complement rename=complement_contiguous props=C11,C13 wrap=copied
-    requires
-        self.wf(),
-        self.contiguous(),
-    ensures
-        r.verts() == self.verts(),
-        forall|a: int, b: int| #![trigger r.has(a, b)] r.has(a, b) == (self.verts().contains(a) && self.verts().contains(b) && a != b && !self.has(a, b)),
-        r.wf(),
-    @closure 1 |p: (&usize, &BTreeSet<usize>)| -> (q: (usize, BTreeSet<usize>))
-    ensures
-        q.0 == *p.0,
-        q.1@ == vertices@.difference(p.1@).remove(*p.0),
-    @fn_start
-        broadcast use vstd::laws_cmp::group_laws_cmp;
-        broadcast use vstd::std_specs::iter::group_iter_axioms;
-        broadcast use axiom_btree_set_from_iter;
-    @before `Self {`
-        proof {
-            // `vertices` is the set of POSITIONS 0..order, not the vertex set
-            assert forall|rem: Seq<usize>| rem.len() == order && (forall|i: int| 0 <= i < order ==> #[trigger] rem[i] == i)
-                && #[trigger] rem.to_set() == vertices@ implies (forall|x: usize| vertices@.contains(x) == (x < order)) by {
-                assert forall|x: usize| vertices@.contains(x) == (x < order) by { lemma_range_set(order, rem, x); }
-            }
-            assert(forall|x: usize| vertices@.contains(x) == (x < order));
-            // the collected map has the keys of self and, at key k, the positions that are neither k nor successors of k
-            assert forall|src: Seq<(&usize, &BTreeSet<usize>)>, rem: Seq<(usize, BTreeSet<usize>)>, m: BTreeMap<usize, BTreeSet<usize>>|
-                map_items_of(self.arcs@, src) && rem.len() == src.len()
-                && (forall|k: int| 0 <= k < rem.len() ==> (#[trigger] rem[k]).0 == *src[k].0 && rem[k].1@ == vertices@.difference(src[k].1@).remove(*src[k].0))
-                && #[trigger] src.no_duplicates()
-                && #[trigger] <BTreeMap<usize, BTreeSet<usize>> as vstd::std_specs::iter::FromIteratorSpec<(usize, BTreeSet<usize>)>>::from_iter_ensures(rem, m)
-                implies complement_rows(*self, m@, vertices@) by {
-                lemma_collect_complement(*self, src, rem, m, vertices@);
-            }
-            // where ids are positions that is the complement
-            assert forall|q: AdjacencyMap| #[trigger] complement_rows(*self, q.arcs@, vertices@) implies
-                q.verts() == self.verts() && q.wf()
-                && (forall|a: int, b: int| #![trigger q.has(a, b)] q.has(a, b) == (self.verts().contains(a) && self.verts().contains(b) && a != b && !self.has(a, b))) by {
+            // `vertices` being the vertex set, that is the complement
+            assert forall|q: AdjacencyMap| #[trigger] complement_rows(*self, q.arcs@, vertices@) implies complement_result_ok(*self, q, vertices@) by {
                 lemma_complement_result(*self, q, vertices@);
             }
         }
@@ -909,88 +740,16 @@ proof fn lemma_processed_all(m: Map<usize, BTreeSet<usize>>, items: Seq<(&usize,
     }
 }
 
-/// the map has exactly the keys 0..rows.len() and key i holds rows[i]
-spec fn positional(m: Map<usize, BTreeSet<usize>>, rows: Seq<BTreeSet<usize>>) -> bool {
-    &&& forall|k: usize| #[trigger] m.contains_key(k) == (k < rows.len())
-    &&& forall|k: usize| k < rows.len() ==> #[trigger] m[k] == rows[k as int]
-}
-
-proof fn lemma_collect_positional(rem: Seq<(usize, BTreeSet<usize>)>, m: BTreeMap<usize, BTreeSet<usize>>, rows: Seq<BTreeSet<usize>>)
-    requires
-        rem.len() == rows.len(),
-        forall|i: int| 0 <= i < rem.len() ==> #[trigger] rem[i] == (i as usize, rows[i]),
-        <BTreeMap<usize, BTreeSet<usize>> as vstd::std_specs::iter::FromIteratorSpec<(usize, BTreeSet<usize>)>>::from_iter_ensures(rem, m),
-        rows.len() <= usize::MAX,
-    ensures positional(m@, rows),
-{
-    axiom_btree_map_from_iter(rem, m);
-    assert forall|i: int, j: int| 0 <= i < j < rem.len() implies rem[i].0 != rem[j].0 by {}
-    assert forall|k: usize| #[trigger] m@.contains_key(k) == (k < rows.len()) by {
-        if k < rows.len() { assert(rem[k as int].0 == k); }
-    }
-    assert forall|k: usize| k < rows.len() implies #[trigger] m@[k] == rows[k as int] by {
-        assert(m@[rem[k as int].0] == rem[k as int].1);
-    }
-}
-
-proof fn lemma_converse_result(g: AdjacencyMap, q: AdjacencyMap, rows: Seq<BTreeSet<usize>>)
-    requires
-        g.wf(),
-        g.contiguous(),
-        rows.len() == g.ord(),
-        positional(q.arcs@, rows),
-        forall|x: int, a: usize| 0 <= x < rows.len() ==> #[trigger] rows[x]@.contains(a) == g.has(a as int, x),
-    ensures
-        q.verts() == g.verts(),
-        q.wf(),
-        forall|a: int, b: int| #![trigger q.has(a, b)] q.has(a, b) == g.has(b, a),
-{
-    broadcast use lemma_map_verts_contains;
-    assert(q.arcs@.dom() =~= g.arcs@.dom());
-    assert(q.verts() =~= g.verts());
-    assert forall|a: int, b: int| #![trigger q.has(a, b)] q.has(a, b) == g.has(b, a) by {
-        if 0 <= a <= usize::MAX && 0 <= b <= usize::MAX {
-            if q.arcs@.contains_key(a as usize) {
-                assert(q.arcs@[a as usize] == rows[a]);
-                assert(rows[a]@.contains(b as usize) == g.has(b, a));
-            }
-            if g.has(b, a) { assert(g.arcs@[b as usize]@.contains(a as usize)); }
-        }
-    }
-    assert(q.wf()) by {
-        assert forall|u: usize, x: usize| q.arcs@.contains_key(u) && #[trigger] q.arcs@[u]@.contains(x) implies q.arcs@.contains_key(x) && x != u by {
-            assert(q.has(u as int, x as int));
-            assert(g.has(x as int, u as int));
-            assert(g.arcs@[x]@.contains(u));
-        }
-    }
-}
-
 /// `out` holds, at position k, the row of the k-th vertex (in ascending id order)
 spec fn rows_at(g: AdjacencyMap, out: Seq<&BTreeSet<usize>>) -> bool {
     &&& out.len() == g.ord()
     &&& forall|k: int| 0 <= k < out.len() ==> *(#[trigger] out[k]) == g.arcs@[g.key_seq()[k]]
 }
 
-/// in a contiguous map the k-th vertex is k
-proof fn lemma_contiguous_key_seq(g: AdjacencyMap)
-    requires g.contiguous(), g.ord() <= usize::MAX,
-    ensures
-        is_key_seq(g.arcs@.dom(), g.key_seq()),
-        g.key_seq().len() == g.ord(),
-        forall|k: int| 0 <= k < g.ord() ==> #[trigger] g.key_seq()[k] == k,
-{
-    let n = g.ord();
-    let dom = g.arcs@.dom();
-    let id = Seq::new(n as nat, |i: int| i as usize);
-    assert(is_key_seq(dom, id)) by {
-        assert forall|x: usize| id.to_set().contains(x) == dom.contains(x) by {
-            if id.to_set().contains(x) { let k = choose|k: int| 0 <= k < id.len() && id[k] == x; }
-            if dom.contains(x) { assert(g.arcs@.contains_key(x)); assert(id[x as int] == x); }
-        }
-        assert(id.to_set() =~= dom);
-    }
-    lemma_key_seq_unique(dom, id, g.key_seq());
+/// the items of `vertices().enumerate()`: (k, k-th vertex in ascending id order)
+spec fn enumerated_keys(g: AdjacencyMap, items: Seq<(usize, usize)>) -> bool {
+    &&& items.len() == g.key_seq().len()
+    &&& forall|k: int| 0 <= k < items.len() ==> #[trigger] items[k] == (k as usize, g.key_seq()[k])
 }
 
 /// every row of a well-formed map lies inside V minus its own vertex: at most |V| - 1 arcs per row
@@ -1234,15 +993,6 @@ spec fn complement_rows(g: AdjacencyMap, m: Map<usize, BTreeSet<usize>>, full: S
     &&& forall|k: usize| g.arcs@.contains_key(k) ==> (#[trigger] m[k])@ == full.difference(g.arcs@[k]@).remove(k)
 }
 
-/// the set collected from `0..n`
-proof fn lemma_range_set(n: usize, rem: Seq<usize>, x: usize)
-    requires rem.len() == n, forall|i: int| 0 <= i < n ==> #[trigger] rem[i] == i,
-    ensures rem.to_set().contains(x) == (x < n),
-{
-    if rem.to_set().contains(x) { let k = choose|k: int| 0 <= k < rem.len() && rem[k] == x; }
-    if x < n { assert(rem[x as int] == x); }
-}
-
 proof fn lemma_collect_complement(g: AdjacencyMap, src: Seq<(&usize, &BTreeSet<usize>)>, rem: Seq<(usize, BTreeSet<usize>)>, m: BTreeMap<usize, BTreeSet<usize>>, full: Set<usize>)
     requires
         map_items_of(g.arcs@, src),
@@ -1282,28 +1032,31 @@ proof fn lemma_collect_complement(g: AdjacencyMap, src: Seq<(&usize, &BTreeSet<u
     }
 }
 
-proof fn lemma_complement_result(g: AdjacencyMap, q: AdjacencyMap, full: Set<usize>)
-    requires
-        g.wf(),
-        g.contiguous(),
-        forall|x: usize| full.contains(x) == (x < g.ord()),
-        complement_rows(g, q.arcs@, full),
-    ensures
-        q.verts() == g.verts(),
-        q.wf(),
-        forall|a: int, b: int| #![trigger q.has(a, b)] q.has(a, b) == (g.verts().contains(a) && g.verts().contains(b) && a != b && !g.has(a, b)),
-{
-    broadcast use lemma_map_verts_contains;
-    assert(q.verts() =~= g.verts());
-    assert forall|a: int, b: int| #![trigger q.has(a, b)] q.has(a, b) == (g.verts().contains(a) && g.verts().contains(b) && a != b && !g.has(a, b)) by {
-        if 0 <= a <= usize::MAX && 0 <= b <= usize::MAX && g.arcs@.contains_key(a as usize) {
-            assert(q.arcs@[a as usize]@ == full.difference(g.arcs@[a as usize]@).remove(a as usize));
-        }
+/// `full` is the vertex set of g and q has the complement rows over it ==> q is the complement of g (C11)
+spec fn complement_result_ok(g: AdjacencyMap, q: AdjacencyMap, full: Set<usize>) -> bool {
+    g.wf() && full == g.arcs@.dom() && complement_rows(g, q.arcs@, full) ==> {
+        &&& q.verts() == g.verts()
+        &&& q.wf()
+        &&& forall|a: int, b: int| #![trigger q.has(a, b)] q.has(a, b) == (g.verts().contains(a) && g.verts().contains(b) && a != b && !g.has(a, b))
     }
-    assert(q.wf()) by {
-        assert(q.arcs@.len() == g.arcs@.len());
-        assert forall|u: usize, x: usize| q.arcs@.contains_key(u) && #[trigger] q.arcs@[u]@.contains(x) implies q.arcs@.contains_key(x) && x != u by {
-            assert(q.arcs@[u]@ == full.difference(g.arcs@[u]@).remove(u));
+}
+
+proof fn lemma_complement_result(g: AdjacencyMap, q: AdjacencyMap, full: Set<usize>)
+    ensures complement_result_ok(g, q, full),
+{
+    if g.wf() && full == g.arcs@.dom() && complement_rows(g, q.arcs@, full) {
+        broadcast use lemma_map_verts_contains;
+        assert(q.verts() =~= g.verts());
+        assert forall|a: int, b: int| #![trigger q.has(a, b)] q.has(a, b) == (g.verts().contains(a) && g.verts().contains(b) && a != b && !g.has(a, b)) by {
+            if 0 <= a <= usize::MAX && 0 <= b <= usize::MAX && g.arcs@.contains_key(a as usize) {
+                assert(q.arcs@[a as usize]@ == full.difference(g.arcs@[a as usize]@).remove(a as usize));
+            }
+        }
+        assert(q.wf()) by {
+            assert(q.arcs@.len() == g.arcs@.len());
+            assert forall|u: usize, x: usize| q.arcs@.contains_key(u) && #[trigger] q.arcs@[u]@.contains(x) implies q.arcs@.contains_key(x) && x != u by {
+                assert(q.arcs@[u]@ == full.difference(g.arcs@[u]@).remove(u));
+            }
         }
     }
 }
